@@ -38,6 +38,9 @@ def main(argv):
         if prop in ("C11", "C12"):
             import gossipchk
             return gossipchk.replay(prop, rp) if rp else gossipchk.check(prop, tier)
+        if prop == "C16":
+            import notarychk
+            return notarychk.replay(prop, rp) if rp else notarychk.check(prop, tier)
         if prop == "C08":
             import locks
             return locks.replay(prop, rp) if rp else locks.check(prop, tier)
